@@ -12,11 +12,41 @@ NA = {
 }
 
 # property -> (design_ref, level text, level_note, technique)
+K = "bounded model checking (Kani 0.68 / CBMC 6.11 SAT)"
+S = "SMT (z3 4.8 / z3 5.1 / cvc5 portfolio) over symbolic execution of the MIR of the real functions (mir2smt)"
 CLAIMED = {
  "C01": ("DESIGN.md §5 C01",
          "Bounded model checking of the real serialize/deserialize code (Kani/CBMC) against an independent wire-format oracle, plus SMT obligations over the MIR of the vint kernels: for every value inside each obligation's bound the emitted bytes equal the CQL v4 encoding and decode back to the value.",
          "Bounds per obligation are in the evidence (content lengths <= 3, collections <= 2, nesting <= 2); Hash* and third-party carriers are outside. Trusts Kani/CBMC/CaDiCaL, the harness-side reference encoder, and for vint the mir2smt translator (validated per run against native execution).",
-         "bounded model checking (Kani/CBMC SAT) + SMT (z3/cvc5) over MIR-derived encodings"),
+         K + " + " + S),
+ "C02": ("DESIGN.md §5 C02",
+         "Kernel only: one StreamIdSet::allocate / free step from symbolic bitmaps (512 blocks) is decided by CBMC: lowest free id handed out, never an id in use, exactly one bit changes, None iff exhausted.",
+         "Only the id-reservation arithmetic is decided. The delivery clause (response reaches exactly its request) and every schedule quantifier live in ResponseHandlerMap/router tasks (HashMap + tokio) and are NOT decided. Allocation is checked for the first non-full block at concrete indices {0,511} quick / {0,1,255,256,510,511} thorough with symbolic contents.",
+         K),
+ "C04": ("DESIGN.md §5 C04",
+         "Kernel only: TokenRing<T> walk (new/sort, ring_range_full, ring_range, get_elem_for_token) for rings of 0..4 (thorough 5) members with fully symbolic tokens and query: starts at the first member clockwise from the token, visits each member once, wraps once.",
+         "Replica-set computation proper (SimpleStrategy / NetworkTopologyStrategy, precomputed vs on-the-fly, DC restriction, ReplicaSet views) goes through HashMap/HashSet/itertools::unique over Arc<Node> and is NOT decided (CBMC cannot execute HashMap insertion here).",
+         K),
+ "C06": ("DESIGN.md §5 C06",
+         "Policy-decision half, decided inductively: one decide_should_retry step of Default / DowngradingConsistency / Fallthrough from an ARBITRARY session state, every RequestAttemptError and DbError variant with all scalar fields symbolic: non-idempotent requests are re-sent only after unavailable/bootstrapping/no-stream-id/read-timeout, never after broken connection/overloaded/server/truncate/write-timeout; Default never retries at serial consistency; same-target retries consume one-shot flags (bound 2 / 1 / 0); reset clears the flags.",
+         "The executor honouring the decisions (async run_request_speculative_fiber, pager, speculative execution) is NOT decided. Trusted: mir2smt translator, models of derived PartialEq / reference comparisons / tracing-disabled, enum variant order parsed from source.",
+         S),
+ "C11": ("DESIGN.md §5 C11",
+         "shard_of == ScyllaDB's formula and < nr_shards for ALL tokens x shard counts 1..=65535 x msb 0..=63; lowest-port rule for ALL valid port ranges and shard counts (Some = lowest congruent port in range, None iff none exists); ShardInfo::new rejects iff shard >= nr_shards; plus Kani on the draw/iterate glue with the RNG replaced by arbitrary values for small windows.",
+         "INT encoding (explicit mod 2^k) for the arithmetic; translator validated every run against native execution on seeded inputs. Iterator glue: nr_shards in {3,7} (thorough more), port windows < 24 ports. msb_ignore >= 64 and SUPPORTED-options parsing (HashMap) outside.",
+         S + " + " + K),
+ "C15": ("DESIGN.md §5 C15",
+         "One TableTablets::add_tablet step from an ARBITRARY invariant-satisfying pre-state of N tablets (N <= 4 quick, <= 6 thorough; all bounds symbolic i64) followed by tablet_for_token on an arbitrary token: list stays sorted/disjoint, exactly the overlapped tablets disappear, lookup = newest covering tablet or nothing (never stale).",
+         "Vec/slice operations are modelled as sequence operations (partition_point on partitioned slices, drain, insert, get). TabletsInfo (hash map per table), perform_maintenance, per-DC restriction and RawTablet::from_custom_payload validation are NOT decided.",
+         S + " (+ one Kani cross-check on the empty list)"),
+ "C18": ("DESIGN.md §5 C18",
+         "Thread-modular (rely/guarantee) step obligation on the real next_timestamp/compute_next: with up to R interfering successful CAS updates by other threads and an arbitrary clock reading injected between load and compare_exchange, the returned timestamp exceeds every timestamp handed out before and `last` equals it.",
+         "Kani atomics are sequentially consistent; rely: other threads only CAS `last` upwards. last >= i64::MAX-8 excluded. 'Explicit statement timestamp wins' lives in async Connection code and is NOT decided.",
+         K),
+ "C20": ("DESIGN.md §5 C20",
+         "Local-validation clause only: VerifiedKeyspaceName::new accepts exactly the names of 1..=48 characters from [A-Za-z0-9_], over names of every length 0..=60 made of arbitrary Unicode scalar values (quick: lengths 0,1,2,3,5,47..50,60), reports the right error variant / first offending character, and keeps accepted names unchanged; Kani cross-check at byte level (valid UTF-8 of length 0..3).",
+         "All ordering clauses of C20 (pool refill, reconnects, concurrent requests) are tokio/socket code and NOT decided. &str is modelled as a sequence of scalar values in engine S.",
+         S + " + " + K),
 }
 
 def manifest():
@@ -59,4 +89,4 @@ def manifest():
         "notes": "Technique family: solver-based checking of the real code. exit 0 = all obligations discharged within stated bounds; exit 1 = reproducing counterexample; exit 2 = inconclusive (never reported as pass).",
     }
 
-HOOK_COMMITS = []
+HOOK_COMMITS = ['1dd854c', 'c81cb68', '3bca3b6', '3ff90ff', 'ace7ba7', '423595e', '1865a12', '55a0502', '6db07cc', '8989f50']
